@@ -269,8 +269,12 @@ func (r *inFlightRequest) String() string {
 }
 
 func (r *inFlightRequest) onFrameReceived(f *frame.Frame) error {
+	// hold the read lock while attempting the (non-blocking) send: close() closes the channel under the write lock,
+	// and a send on a channel closed in between would panic
+	r.lock.RLock()
 	select {
 	case r._incoming <- f:
+		r.lock.RUnlock()
 		if isLastFrame(f) {
 			r.stopTimeout()
 			r.close(nil)
@@ -279,11 +283,13 @@ func (r *inFlightRequest) onFrameReceived(f *frame.Frame) error {
 		}
 		return nil
 	case <-r.ctx.Done():
+		r.lock.RUnlock()
 		// the context may have been canceled by a parent: make sure the request is completed
 		err := fmt.Errorf("%v: request closed", r)
 		r.close(err)
 		return err
 	default:
+		r.lock.RUnlock()
 		err := fmt.Errorf("%v: too many pending incoming frames: %d", r, len(r.incoming))
 		r.close(err)
 		return err
